@@ -4,7 +4,9 @@ C05 — coefficient/constant packing contract and enabled_coefficients are truth
 Layout theorems (blocks tile `w` and `c`, original positions) are in
 `FfcxProofs.Lemmas.Layout` (`Ffcx.Layout.coeff_blocks_tile`, `const_blocks_tile`, `orig_positions`).
 This file: the kernel-side half.  For a kernel that only *reads* the input array `W`
-(`readOnly W k`, decidable, checked on every generated kernel):
+(`readOnly W k`, decidable; evaluated on every kernel of the corpus by `harness/props/c05.py` through
+the driver command `(readonly …)` for `W` = `w`, `c`, `coordinate_dofs`, `entity_local_index`,
+`quadrature_permutation`):
 
 * `reads_data_independent`: the list of indices of `W` read by a run is the same for every scalar
   domain and all scalar data (same integer state, same array shapes) — so it can be computed once
@@ -13,10 +15,22 @@ This file: the kernel-side half.  For a kernel that only *reads* the input array
   `D` (e.g. NaN-like garbage in the storage of a disabled coefficient, modelled as an arbitrary
   element of `R`) changes nothing: the run succeeds identically and every array other than `W`
   — in particular `A` — ends with identical contents.
+* `disabled_irrelevant`: the composition with the packing contract.  `readsAvoidB` (decidable, evaluated
+  per kernel and per (entity, permutation) tuple by the driver command `(coefreads …)`) says that the
+  reads of `w` recorded by `execReads` avoid the blocks `[offset_j, offset_j + width·dim_j)` of every
+  coefficient whose `enabled_coefficients` flag is false (blocks = `Ffcx.Layout.coeffOffsets/blockSizes`,
+  the model of `_compute_integral_ir`).  Then for ALL scalar data of that shape the run succeeds and its
+  result does not depend on what is stored in the blocks of the disabled coefficients.
+* `reads_in_blocks`: per-read block attribution — every read index of `w` accepted by `readsInBlocksB`
+  lies in the block of exactly one coefficient of the contract, the one `blockOf` computes.
+* `coeffAccess_reads`: `w[coeffAccess …]` (the model of `symbols.coefficient_dof_access`) is a read that
+  `reads_in_blocks` attributes to coefficient `k`.
 -/
 import FfcxProofs.Lemmas.Reads
 import FfcxProofs.Lemmas.ReadsShape
 import FfcxModel.LNodes.ShapeDomain
+import FfcxModel.LNodes.ReadBlocks
+import FfcxProofs.Lemmas.Layout
 
 namespace Ffcx.LNodes
 open Lean.Grind
@@ -56,8 +70,194 @@ theorem unread_irrelevant (W : String) (D : Nat → Prop) (d : Nat → R) (hd : 
   obtain ⟨τ', ht, ha⟩ := exec_agree x hd k σ τ σ' rs hk h hrun hreads
   exact ⟨τ', ht, ha.other, ha.sv, ha.iv⟩
 
+/-! ### enabled_coefficients: reads avoid the blocks of disabled coefficients -/
+
+open Ffcx.Layout in
+/-- `τ` is `σ` with the contents of `w` changed arbitrarily INSIDE the blocks of the coefficients whose
+`enabled_coefficients` flag is false (everything else — other arrays, scalars, integers, the shape of
+`w` — is the same). -/
+structure DiffersInDisabled (width : Nat) (dims : List Nat) (enabled : List Bool) (σ τ : St R) : Prop where
+  iv : σ.iv = τ.iv
+  ia : σ.ia = τ.ia
+  sv : σ.sv = τ.sv
+  other : ∀ n, n ≠ "w" → σ.sa.get n = τ.sa.get n
+  w : ∃ a b n, σ.sa.get "w" = some a ∧ τ.sa.get "w" = some b ∧ a.dims = [n] ∧ b.dims = [n]
+      ∧ a.const = b.const ∧ a.data.size = b.data.size
+      ∧ ∀ k, k < a.data.size → ¬ InDisabled width dims enabled k → b.data.getD k 0 = a.data.getD k 0
+
+theorem avoidsB_spec (blocks : List (Nat × Nat)) (rs : List (Option Int)) (h : avoidsB blocks rs = true)
+    (i : Int) (hi : some i ∈ rs) (h0 : 0 ≤ i) :
+    ¬ ∃ b ∈ blocks, b.1 ≤ i.toNat ∧ i.toNat < b.1 + b.2 := by
+  rintro ⟨b, hb, h1, h2⟩
+  have := List.all_eq_true.mp h (some i) hi
+  simp only at this
+  have := List.all_eq_true.mp this b hb
+  simp [inBlock, h0, h1, h2] at this
+
+/-- **disabled_irrelevant.**  If the kernel only reads `w` and, over the shape domain, the recorded reads of
+`w` avoid the blocks of the disabled coefficients (`readsAvoidB`, evaluated by the driver), then for every
+scalar field `R`, all data `σ` of that shape and every `τ` that differs from `σ` only inside the blocks of
+disabled coefficients: both runs succeed and end with identical contents of every array other than `w`
+(in particular `A`), identical scalars and integers.  The values stored for a coefficient whose
+`enabled_coefficients` flag is false are irrelevant — NaN-like garbage included (an arbitrary element
+of `R`). -/
+theorem disabled_irrelevant (width : Nat) (dims : List Nat) (enabled : List Bool)
+    (k : Stmt) (hk : readOnly "w" k = true)
+    (υ : St U) (hav : readsAvoidB uExtra k υ width dims enabled = true)
+    (σ τ : St R) (hσ : SameShape σ υ) (hτ : DiffersInDisabled width dims enabled σ τ) :
+    ∃ σ' τ', exec x k σ = .ok σ' ∧ exec x k τ = .ok τ' ∧
+      (∀ n, n ≠ "w" → σ'.sa.get n = τ'.sa.get n) ∧ σ'.sv = τ'.sv ∧ σ'.iv = τ'.iv := by
+  -- the reads over `U`
+  simp only [readsAvoidB, Bool.and_eq_true, decide_eq_true_eq] at hav
+  obtain ⟨_, hav⟩ := hav
+  cases hu : execReads uExtra "w" k υ with
+  | error e => simp [hu] at hav
+  | ok pu =>
+    obtain ⟨υ', rs⟩ := pu
+    simp only [hu] at hav
+    -- the same reads over `R`
+    have hdi := reads_data_independent x "w" k σ υ hσ
+    cases hr : execReads x "w" k σ with
+    | error e => simp [hr, hu] at hdi
+    | ok pr =>
+      obtain ⟨σ', rs'⟩ := pr
+      simp only [hr, hu] at hdi
+      subst hdi
+      obtain ⟨a, b, n, ha, hb, hda, hdb, hc, hsz, hdata⟩ := hτ.w
+      let d : Nat → R := fun j => b.data.getD j 0 - a.data.getD j 0
+      have hd : ∀ j, ¬ InDisabled width dims enabled j → d j = 0 := by
+        intro j hj
+        by_cases hjs : j < a.data.size
+        · have := hdata j hjs hj
+          simp only [d, this]
+          grind
+        · have h1 : a.data.getD j 0 = 0 := by simp [Array.getD, hjs]
+          have h2 : b.data.getD j 0 = 0 := by simp [Array.getD, ← hsz, hjs]
+          simp only [d, h1, h2]
+          grind
+      have hagree : AgreeW "w" d σ τ :=
+        { iv := hτ.iv, ia := hτ.ia, sv := hτ.sv, other := hτ.other,
+          arrA := ⟨a, b, ha, hb, by rw [hda, hdb], hc, hsz, fun j _ => by simp only [d]; grind⟩,
+          oneD := ⟨a, n, ha, hda⟩ }
+      have hreads : ∀ i : Int, some i ∈ rs' → 0 ≤ i → ¬ InDisabled width dims enabled i.toNat :=
+        fun i hi h0 => avoidsB_spec _ _ hav i hi h0
+      obtain ⟨τ', ht, h1, h2, h3⟩ :=
+        unread_irrelevant x "w" (InDisabled width dims enabled) d hd k hk σ τ σ' rs' hagree hr hreads
+      exact ⟨σ', τ', execReads_fst x k σ σ' rs' hr, ht, h1, h2, h3⟩
+
+open Ffcx.Layout in
+/-- what the driver command `(coefreads …)` evaluates: `readsAvoidB` / `readsInBlocksB` with the result of
+the (shared) `execReads` run substituted -/
+theorem readsAvoidB_eq {S : Type} [Add S] [Sub S] [Mul S] [Div S] [Neg S] [IntCast S]
+    (y : Extra S) (k : Stmt) (σ σ' : St S) (rs : List (Option Int)) (width : Nat) (dims : List Nat)
+    (enabled : List Bool) (h : execReads y "w" k σ = .ok (σ', rs)) :
+    readsAvoidB y k σ width dims enabled
+        = (decide (enabled.length = dims.length) && avoidsB (disabledBlocks width dims enabled) rs)
+    ∧ readsInBlocksB y k σ width dims = inRangeB (coeffTotal width dims) rs := by
+  simp [readsAvoidB, readsInBlocksB, h]
+
+/-! ### per-read block attribution -/
+
+open Ffcx.Layout in
+theorem coeffBlocks_getElem (width : Nat) (dims : List Nat) (j : Nat) (hj : j < dims.length) :
+    ∃ h : j < (coeffBlocks width dims).length,
+      (coeffBlocks width dims)[j] = ((coeffOffsets width dims).getD j 0, width * dims.getD j 0) := by
+  have hl1 : (coeffOffsets width dims).length = dims.length := by simp [coeffOffsets, blockSizes]
+  have hl2 : (blockSizes width dims).length = dims.length := by simp [blockSizes]
+  have h : j < (coeffBlocks width dims).length := by
+    simp only [coeffBlocks, List.length_zip, hl1, hl2]; omega
+  refine ⟨h, ?_⟩
+  simp only [coeffBlocks, List.getElem_zip]
+  rw [← blockSizes_getD, getD_eq_getElem' _ _ _ (by omega), getD_eq_getElem' _ _ _ (by omega)]
+
+open Ffcx.Layout in
+/-- a position of `w` below `width·Σdim` lies in the block of exactly one coefficient, and `blockOf`
+finds it -/
+theorem blockOf_spec (width : Nat) (dims : List Nat) (i : Int) (h0 : 0 ≤ i)
+    (hlt : i.toNat < coeffTotal width dims) :
+    ∃ j, j < dims.length ∧ blockOf (coeffBlocks width dims) i = some j
+      ∧ (coeffOffsets width dims).getD j 0 ≤ i.toNat
+      ∧ i.toNat < (coeffOffsets width dims).getD j 0 + width * dims.getD j 0
+      ∧ ∀ j', j' < dims.length → (coeffOffsets width dims).getD j' 0 ≤ i.toNat →
+          i.toNat < (coeffOffsets width dims).getD j' 0 + width * dims.getD j' 0 → j' = j := by
+  obtain ⟨T, hl, hs, htot⟩ := coeff_blocks_tile width dims
+  rw [htot] at hlt
+  obtain ⟨j, hj, h1, h2⟩ := T.cover i.toNat hlt
+  rw [hl] at hj
+  rw [hs j] at h2
+  have uniq : ∀ j', j' < dims.length → (coeffOffsets width dims).getD j' 0 ≤ i.toNat →
+      i.toNat < (coeffOffsets width dims).getD j' 0 + width * dims.getD j' 0 → j' = j := by
+    intro j' hj' g1 g2
+    exact T.disjoint j' j i.toNat (by omega) (by omega) ⟨g1, by rw [hs j']; exact g2⟩
+      ⟨h1, by rw [hs j]; exact h2⟩
+  refine ⟨j, hj, ?_, h1, h2, uniq⟩
+  obtain ⟨hjl, hget⟩ := coeffBlocks_getElem width dims j hj
+  simp only [blockOf]
+  rw [List.findIdx?_eq_some_iff_getElem]
+  refine ⟨hjl, ?_, ?_⟩
+  · rw [hget]
+    show (decide (0 ≤ i) && decide (_ ≤ i.toNat) && decide (i.toNat < _ + _)) = true
+    rw [decide_eq_true h0, decide_eq_true h1, decide_eq_true h2]; rfl
+  · intro j' hj'j hp
+    have hj'd : j' < dims.length := by omega
+    obtain ⟨_, hget'⟩ := coeffBlocks_getElem width dims j' hj'd
+    rw [hget'] at hp
+    simp only [inBlock, Bool.and_eq_true, decide_eq_true_eq] at hp
+    have := uniq j' hj'd hp.1.2 hp.2
+    omega
+
+open Ffcx.Layout in
+/-- **reads_in_blocks** (per-read block attribution).  If `readsInBlocksB` holds (decidable; evaluated by the
+driver for every kernel and (entity, permutation) tuple), the run succeeds and every recorded read of `w`
+is an evaluable index `i` that lies in the block `[offset_j, offset_j + width·dim_j)` of EXACTLY ONE
+coefficient `j` of the contract — the one `blockOf` returns. -/
+theorem reads_in_blocks {S : Type} [Add S] [Sub S] [Mul S] [Div S] [Neg S] [IntCast S]
+    (y : Extra S) (width : Nat) (dims : List Nat) (k : Stmt) (σ : St S)
+    (h : readsInBlocksB y k σ width dims = true) :
+    ∃ σ' rs, execReads y "w" k σ = .ok (σ', rs) ∧ ∀ r ∈ rs, ∃ i : Int, r = some i ∧ 0 ≤ i ∧
+      ∃ j, j < dims.length ∧ blockOf (coeffBlocks width dims) i = some j
+        ∧ (coeffOffsets width dims).getD j 0 ≤ i.toNat
+        ∧ i.toNat < (coeffOffsets width dims).getD j 0 + width * dims.getD j 0
+        ∧ ∀ j', j' < dims.length → (coeffOffsets width dims).getD j' 0 ≤ i.toNat →
+            i.toNat < (coeffOffsets width dims).getD j' 0 + width * dims.getD j' 0 → j' = j := by
+  simp only [readsInBlocksB] at h
+  cases hr : execReads y "w" k σ with
+  | error e => simp [hr] at h
+  | ok p =>
+    obtain ⟨σ', rs⟩ := p
+    simp only [hr, inRangeB] at h
+    refine ⟨σ', rs, rfl, ?_⟩
+    intro r hrm
+    have := List.all_eq_true.mp h r hrm
+    cases r with
+    | none => simp at this
+    | some i =>
+      simp only [Bool.and_eq_true, decide_eq_true_eq] at this
+      exact ⟨i, rfl, this.1, blockOf_spec width dims i this.1 this.2⟩
+
+open Ffcx.Layout in
+/-- the model of `symbols.coefficient_dof_access` (`w[offset_k + dof]`, `dof < width·dim_k`) is attributed
+to coefficient `k` -/
+theorem coeffAccess_reads (width : Nat) (dims : List Nat) (k dof : Nat)
+    (hk : k < dims.length) (hd : dof < width * dims.getD k 0) :
+    blockOf (coeffBlocks width dims) (coeffAccess width dims k dof : Nat) = some k := by
+  obtain ⟨h1, h2, h3⟩ := coeffAccess_in_block width dims k dof hk hd
+  have htot := (coeff_blocks_tile width dims).2.2.2
+  obtain ⟨j, _, hb, _, _, uniq⟩ := blockOf_spec width dims (coeffAccess width dims k dof : Nat)
+    (by omega) (by simpa [htot] using h3)
+  rw [hb, uniq k hk (by simpa using h1) (by simpa using h2)]
+
 /-- non-vacuity: `A[0] += w[1]` reads index 1 only, so `w[0]` and `w[2]` are irrelevant -/
 example : readOnly "w" (.addAssign (.idx "A" .scalar [.litI 0]) (.idx "w" .scalar [.litI 1])) = true ∧
     readsE "w" [] [] (.idx "w" .scalar [.litI 1]) = [some 1] := by decide
+
+/-- non-vacuity of the flag obligation: three coefficients of dimensions 2, 3, 1 (interior facet: width 2),
+the middle one disabled: its block is `[4, 10)`; reads at 1 and 10 avoid it, a read at 7 does not, and the
+reads are attributed to coefficients 0 and 2 -/
+example : disabledBlocks 2 [2, 3, 1] [true, false, true] = [(4, 6)]
+    ∧ avoidsB (disabledBlocks 2 [2, 3, 1] [true, false, true]) [some 1, some 10] = true
+    ∧ avoidsB (disabledBlocks 2 [2, 3, 1] [true, false, true]) [some 1, some 7] = false
+    ∧ blockOf (coeffBlocks 2 [2, 3, 1]) 1 = some 0 ∧ blockOf (coeffBlocks 2 [2, 3, 1]) 10 = some 2 := by
+  decide
 
 end Ffcx.LNodes
